@@ -304,7 +304,7 @@ Lemma mk_si_cases l : pos_slots l ->
   (~ overlapping l /\ (exists c, In c l /\ cslot c < cbaud c) /\ mk_si l = Err E_baud) \/
   (~ overlapping l /\ (forall c, In c l -> cbaud c <= cslot c) /\ mk_si l = Ok (sort_by cf l)).
 Proof.
-  intros Hpos. unfold mk_si.
+  intros Hpos. unfold mk_si, check_si.
   pose proof (sort_by_perm cf l) as HP. pose proof (sort_by_sorted cf l) as Hs.
   assert (Hps : pos_slots (sort_by cf l)) by (eapply pos_slots_perm; [apply Permutation_sym|]; eauto).
   pose proof (adj_overlap_false_iff _ Hs Hps) as Hadj.
@@ -381,7 +381,7 @@ Qed.
 (* a well-formed spectrum is a fixed point of the constructor *)
 Lemma mk_si_ok_id s : si_ok s -> mk_si s = Ok s.
 Proof.
-  intros (Hsep & Hpos & Hb). unfold mk_si.
+  intros (Hsep & Hpos & Hb). unfold mk_si, check_si.
   rewrite (sort_by_id cf s) by (apply sep_le_key; auto).
   assert (E : adj_overlap s = false) by (apply adj_overlap_false_iff; auto; apply sep_le_key; auto).
   rewrite E. apply existsb_exceeds_false in Hb. rewrite Hb. auto.
@@ -752,17 +752,17 @@ Proof.
 Qed.
 
 (* common_range_spec (generic in the probe) *)
-Lemma common_range_probe P amps dmin dmax dsp : probe P -> filter_valid amps <> [] ->
-  (some_band P (find_common_range amps dmin dmax dsp) <-> forall a, In a (filter_valid amps) -> some_band P a).
+Lemma common_range_gen_probe P amps dmin dmax dsp ddb : probe P -> filter_valid amps <> [] ->
+  (some_band P (find_common_range_gen amps dmin dmax dsp ddb) <-> forall a, In a (filter_valid amps) -> some_band P a).
 Proof.
-  intros HP Hne. unfold find_common_range. rewrite remove_dups_unfold.
+  intros HP Hne. unfold find_common_range_gen. rewrite remove_dups_unfold.
   set (v := filter_valid amps) in *. set (w := map (sort_by bmin) v).
   assert (Hu : fold_left rd_step w [] <> []).
   { destruct v as [|a0 v0]; [congruence|]. destruct (rd_repr w [] (sort_by bmin a0)) as (a' & Ha' & _).
     - subst w. cbn. auto.
     - intros E. rewrite E in Ha'. destruct Ha'. }
   destruct (fold_left rd_step w []) as [|u0 ut] eqn:E; [congruence|]. cbv beta iota.
-  rewrite (common_of_probe P dsp (u0 :: ut) HP) by congruence. rewrite <- E. split.
+  rewrite (common_of_probe P _ (u0 :: ut) HP) by congruence. rewrite <- E. split.
   - intros H a Ha. destruct (rd_repr w [] (sort_by bmin a)) as (a' & Ha' & Hr).
     + subst w. apply in_map. auto.
     + apply (some_band_perm P _ _ (sort_by_perm bmin a)). destruct Hr as [->|Hr]; auto.
@@ -771,10 +771,14 @@ Proof.
     destruct Ha' as (a & <- & Ha). apply (some_band_perm P _ _ (sort_by_perm bmin a)). auto.
 Qed.
 
+Lemma common_range_probe P amps dmin dmax dsp : probe P -> filter_valid amps <> [] ->
+  (some_band P (find_common_range amps dmin dmax dsp) <-> forall a, In a (filter_valid amps) -> some_band P a).
+Proof. intros HP Hne. apply (common_range_gen_probe P amps dmin dmax dsp [] HP Hne). Qed.
+
 Lemma common_range_default amps dmin dmax dsp : filter_valid amps = [] ->
   find_common_range amps dmin dmax dsp =
     match dmin, dmax with Some a, Some b => [mkB a b None] | _, _ => [] end.
-Proof. intros E. unfold find_common_range. rewrite E. reflexivity. Qed.
+Proof. intros E. unfold find_common_range, find_common_range_gen. rewrite E. reflexivity. Qed.
 
 (* --- the returned bands are pairwise disjoint when every amplifier's own bands are --- *)
 Definition bsub (r b : band) : Prop := bmin b <= bmin r /\ bmax r <= bmax b.
@@ -822,11 +826,11 @@ Proof.
   apply IH; [|intros x Hx; apply Hu; cbn; auto]. apply cr_step_disjoint; auto. apply Hu. cbn. auto.
 Qed.
 
-Lemma common_range_disjoint amps dmin dmax dsp :
+Lemma common_range_gen_disjoint amps dmin dmax dsp ddb :
   (forall a, In a (filter_valid amps) -> bands_disjoint a) ->
-  bands_disjoint (find_common_range amps dmin dmax dsp).
+  bands_disjoint (find_common_range_gen amps dmin dmax dsp ddb).
 Proof.
-  intros H. unfold find_common_range, bands_disjoint in *. rewrite remove_dups_unfold.
+  intros H. unfold find_common_range_gen, bands_disjoint in *. rewrite remove_dups_unfold.
   set (w := map (sort_by bmin) (filter_valid amps)).
   assert (Hw : forall a, In a (fold_left rd_step w []) -> pw bdisj a).
   { intros a Ha. apply rd_in in Ha. destruct Ha as [[]|Ha]. subst w. apply in_map_iff in Ha.
@@ -837,11 +841,16 @@ Proof.
     apply fold_step_disjoint; auto. apply Hw. cbn. auto.
 Qed.
 
-(* every returned band has a non-empty interior and the list is sorted by f_min *)
-Lemma common_range_sorted amps dmin dmax dsp : filter_valid amps <> [] ->
-  pw (le_key bmin) (find_common_range amps dmin dmax dsp).
+Lemma common_range_disjoint amps dmin dmax dsp :
+  (forall a, In a (filter_valid amps) -> bands_disjoint a) ->
+  bands_disjoint (find_common_range amps dmin dmax dsp).
+Proof. intros H. apply (common_range_gen_disjoint amps dmin dmax dsp [] H). Qed.
+
+(* the returned list is sorted by f_min *)
+Lemma common_range_gen_sorted amps dmin dmax dsp ddb : filter_valid amps <> [] ->
+  pw (le_key bmin) (find_common_range_gen amps dmin dmax dsp ddb).
 Proof.
-  intros Hne. unfold find_common_range. destruct (remove_dups _) as [|u0 ut].
+  intros Hne. unfold find_common_range_gen. destruct (remove_dups _) as [|u0 ut].
   - destruct dmin, dmax; cbn; auto.
   - unfold common_of. apply sort_by_sorted.
 Qed.
@@ -1226,4 +1235,412 @@ Proof.
       unfold sep in Hf. pose proof (lo_lt_hi a (Hpos a (or_introl eq_refl))). lra.
     + cbn [pw] in Hsep. apply IH; [tauto|]. intros c Hc. apply Hpos. cbn. auto.
   - intros c. apply filter_In.
+Qed.
+
+(* ====================================================================================================
+   Construction of the launched spectrum
+   ==================================================================================================== *)
+From Coq Require Import Qround.
+
+(* ---------- column-wise constructor = row-wise constructor ---------- *)
+Lemma insert_by_map {A B} (g : A -> B) (key : B -> Q) x l :
+  map g (insert_by (fun a => key (g a)) x l) = insert_by key (g x) (map g l).
+Proof.
+  induction l as [|y t IH]; cbn [insert_by map]; auto.
+  destruct (qle (key (g x)) (key (g y))); cbn [map]; [auto|rewrite IH; auto].
+Qed.
+Lemma sort_by_map {A B} (g : A -> B) (key : B -> Q) l :
+  map g (sort_by (fun a => key (g a)) l) = sort_by key (map g l).
+Proof.
+  induction l as [|x t IH]; cbn [sort_by fold_right map]; auto.
+  fold (sort_by (fun a => key (g a)) t). fold (sort_by key (map g t)). rewrite insert_by_map, IH. auto.
+Qed.
+
+Lemma nth_map_in {A B} (h : A -> B) l j d d' : (j < length l)%nat -> nth j (map h l) d = h (nth j l d').
+Proof.
+  revert j. induction l as [|x t IH]; intros j Hj; cbn [length] in Hj; [lia|].
+  destruct j; cbn [map nth]; auto. apply IH. lia.
+Qed.
+Lemma map_nth_seq {A B} (g : A -> B) l d : map (fun j => g (nth j l d)) (seq 0 (length l)) = map g l.
+Proof.
+  induction l as [|x t IH]; cbn [length seq map]; auto. f_equal.
+  rewrite <- seq_shift, map_map. cbn [nth]. exact IH.
+Qed.
+
+Lemma rows_reindex cs idx : rows (reindex cs idx) = map (row cs) idx.
+Proof.
+  unfold rows, reindex. cbn [q_f].
+  assert (Hl : length (take 0 (q_f cs) idx) = length idx) by apply map_length. rewrite Hl.
+  rewrite <- (map_nth_seq (row cs) idx 0%nat). apply map_ext_in. intros j Hj. apply in_seq in Hj.
+  unfold row, take. cbn [q_id q_f q_baud q_slot q_label q_osnr q_txp q_dpdb q_ro].
+  rewrite !(nth_map_in _ idx j _ 0%nat) by lia. reflexivity.
+Qed.
+
+Lemma mk_si_cols_rowwise cs : mk_si_cols cs = mk_si (rows cs).
+Proof.
+  unfold mk_si_cols, mk_si. f_equal. rewrite rows_reindex. unfold argsort, rows.
+  apply (sort_by_map (row cs) cf).
+Qed.
+
+(* ---------- carriers_to_spectral_information ---------- *)
+Lemma cols_of_dict_wf d : cols_wf (cols_of_dict d) = true.
+Proof. unfold cols_wf, cols_of_dict. cbn. rewrite !map_length, Nat.eqb_refl. reflexivity. Qed.
+
+Lemma rows_of_dict d : rows (cols_of_dict d) = map chan_of d.
+Proof.
+  unfold rows. cbn [cols_of_dict q_f]. rewrite map_length.
+  destruct d as [|kv0 t]; [reflexivity|]. set (d := kv0 :: t).
+  rewrite <- (map_nth_seq chan_of d kv0). apply map_ext_in. intros j Hj. apply in_seq in Hj.
+  unfold row, chan_of. cbn [cols_of_dict q_id q_f q_baud q_slot q_label q_osnr q_txp q_dpdb q_ro].
+  rewrite !(nth_map_in _ d j _ kv0) by lia. reflexivity.
+Qed.
+
+(* the attribute lists built separately from keys() and values() describe, entry by entry, the carriers of the dict *)
+Lemma carriers_to_si_rowwise d : carriers_to_si d = mk_si (map chan_of d).
+Proof.
+  unfold carriers_to_si, create_arbitrary_cols. rewrite cols_of_dict_wf, mk_si_cols_rowwise, rows_of_dict. reflexivity.
+Qed.
+
+Definition pos_carriers (d : list (Q * carrier)) : Prop := forall kv, In kv d -> 0 < k_slot (snd kv).
+
+Lemma pos_carriers_slots d : pos_carriers d -> pos_slots (map chan_of d).
+Proof. intros H c Hc. apply in_map_iff in Hc. destruct Hc as (kv & <- & Hkv). apply H, Hkv. Qed.
+
+Lemma carriers_to_si_perm d d' : pos_carriers d -> Permutation d d' -> carriers_to_si d = carriers_to_si d'.
+Proof.
+  intros Hpos HP. rewrite !carriers_to_si_rowwise. apply mk_si_perm.
+  - apply pos_carriers_slots, Hpos.
+  - apply Permutation_map, HP.
+Qed.
+
+(* every array entry of the resulting spectrum is one dict entry: the frequency (key) with that carrier's own
+   baud rate, slot width, label and transmitter data; every dict entry appears exactly once; frequency order *)
+Lemma carriers_to_si_attached d s : pos_carriers d -> carriers_to_si d = Ok s ->
+  Permutation (map chan_of d) s /\ si_ok s /\
+  (forall c, In c s -> exists kv, In kv d /\ c = chan_of kv) /\
+  (forall kv, In kv d -> In (chan_of kv) s).
+Proof.
+  intros Hpos E. rewrite carriers_to_si_rowwise in E.
+  destruct (mk_si_sorted _ _ (pos_carriers_slots d Hpos) E) as (HP & Hok & _). repeat split; auto; try apply Hok.
+  - intros c Hc. apply (Permutation_in _ (Permutation_sym HP)) in Hc. apply in_map_iff in Hc.
+    destruct Hc as (kv & <- & Hkv). eauto.
+  - intros kv Hkv. apply (Permutation_in _ HP). apply in_map, Hkv.
+Qed.
+
+(* ---------- uniform grid ---------- *)
+Lemma grid_from_in mk k : forall i c, In c (grid_from mk i k) ->
+  exists j, (i <= j < i + Z.of_nat k)%Z /\ c = mk j.
+Proof.
+  induction k as [|k IH]; intros i c Hc; cbn [grid_from] in Hc; [destruct Hc|].
+  destruct Hc as [<-|Hc].
+  - exists i. split; auto. lia.
+  - destruct (IH _ _ Hc) as (j & Hj & ->). exists j. split; auto. lia.
+Qed.
+Lemma grid_from_length mk k : forall i, length (grid_from mk i k) = k.
+Proof. induction k; intros i; cbn [grid_from length]; auto. Qed.
+
+Lemma inject_Z_mult_le sp i j : 0 < sp -> (i <= j)%Z -> sp * inject_Z i <= sp * inject_Z j.
+Proof.
+  intros Hsp Hij. rewrite !(Qmult_comm sp). apply Qmult_le_compat_r; [|apply Qlt_le_weak, Hsp].
+  rewrite <- Zle_Qle. exact Hij.
+Qed.
+
+Lemma grid_chan_edges fmin sp baud label tx i :
+  clo (grid_chan fmin sp baud label tx i) == fmin + sp * inject_Z i - half sp /\
+  chi (grid_chan fmin sp baud label tx i) == fmin + sp * inject_Z i + half sp.
+Proof. unfold clo, chi, grid_chan. cbn [cf cslot]. split; reflexivity. Qed.
+
+Lemma inject_Z_succ i : inject_Z (i + 1) == inject_Z i + 1.
+Proof. rewrite inject_Z_plus. reflexivity. Qed.
+
+(* consecutive channels touch, all others are apart: the grid is separated *)
+Lemma grid_from_sep fmin sp baud label tx k : 0 < sp ->
+  forall i, pw sep (grid_from (grid_chan fmin sp baud label tx) i k).
+Proof.
+  intros Hsp. induction k as [|k IH]; intros i; cbn [grid_from pw]; auto. split; auto.
+  apply Forall_forall. intros c Hc. apply grid_from_in in Hc. destruct Hc as (j & Hj & ->).
+  unfold sep. destruct (grid_chan_edges fmin sp baud label tx i) as [_ ->].
+  destruct (grid_chan_edges fmin sp baud label tx j) as [-> _].
+  assert (H : sp * inject_Z (i + 1) <= sp * inject_Z j) by (apply inject_Z_mult_le; auto; lia).
+  rewrite inject_Z_succ in H. unfold half. lra.
+Qed.
+
+Lemma grid_chans_ok fmin sp baud label tx n : 0 < sp -> baud <= sp ->
+  si_ok (grid_chans fmin sp baud label tx n).
+Proof.
+  intros Hsp Hb. unfold grid_chans. repeat split.
+  - apply grid_from_sep, Hsp.
+  - intros c Hc. apply grid_from_in in Hc. destruct Hc as (j & _ & ->). exact Hsp.
+  - intros c Hc. apply grid_from_in in Hc. destruct Hc as (j & _ & ->). exact Hb.
+Qed.
+
+Lemma automatic_nch_ok fmin fmax sp : 0 < sp -> automatic_nch fmin fmax sp = Ok (Qfloor ((fmax - fmin) / sp)).
+Proof.
+  intros Hsp. unfold automatic_nch, qeqb. destruct (Qeq_bool sp 0) eqn:E; auto.
+  apply Qeq_bool_iff in E. rewrite E in Hsp. exfalso. apply (Qlt_irrefl 0 Hsp).
+Qed.
+
+(* the uniform grid is accepted as it is: automatic_nch channels, channel i on f_min + i * spacing *)
+Lemma nch_nonneg fmin fmax sp : 0 < sp -> fmin <= fmax -> (0 <= Qfloor ((fmax - fmin) / sp))%Z.
+Proof.
+  intros Hsp Hf. change 0%Z with (Qfloor 0). apply Qfloor_resp_le.
+  apply Qle_shift_div_l; auto. lra.
+Qed.
+
+Lemma create_input_si_ok fmin fmax sp baud label tx : 0 < sp -> baud <= sp -> fmin <= fmax ->
+  create_input_si fmin fmax sp baud label tx =
+    Ok (grid_chans fmin sp baud label tx (Qfloor ((fmax - fmin) / sp))).
+Proof.
+  intros Hsp Hb Hf. unfold create_input_si. rewrite (automatic_nch_ok _ _ _ Hsp). cbn [bind].
+  pose proof (nch_nonneg fmin fmax sp Hsp Hf) as Hn.
+  destruct (Qfloor ((fmax - fmin) / sp) <? 0)%Z eqn:E; [lia|].
+  apply mk_si_ok_id, grid_chans_ok; auto.
+Qed.
+
+(* f_max below f_min: automatic_nch is negative and numpy refuses to build the arrays *)
+Lemma create_input_si_negative fmin fmax sp baud label tx : 0 < sp -> fmax < fmin ->
+  create_input_si fmin fmax sp baud label tx = Err E_negdim.
+Proof.
+  intros Hsp Hf. unfold create_input_si. rewrite (automatic_nch_ok _ _ _ Hsp). cbn [bind].
+  assert (Hn : (Qfloor ((fmax - fmin) / sp) < 0)%Z).
+  { apply Z.lt_nge. intros Hge. rewrite Zle_Qle in Hge.
+    pose proof (Qfloor_le ((fmax - fmin) / sp)) as Hfl.
+    assert (H0 : 0 <= (fmax - fmin) / sp) by (eapply Qle_trans; eauto).
+    apply (Qmult_le_compat_r _ _ sp) in H0; [|apply Qlt_le_weak, Hsp].
+    unfold Qdiv in H0. rewrite <- Qmult_assoc, (Qmult_comm (/ sp)), Qmult_inv_r, Qmult_1_r in H0;
+      [|intros E; rewrite E in Hsp; apply (Qlt_irrefl 0 Hsp)]. lra. }
+  apply Z.ltb_lt in Hn. rewrite Hn. reflexivity.
+Qed.
+
+Lemma grid_chans_length fmin sp baud label tx n :
+  length (grid_chans fmin sp baud label tx n) = Z.to_nat n.
+Proof. apply grid_from_length. Qed.
+
+(* where the channels are: number i in 1..n on f_min + i*spacing; centres in ]f_min, f_max]; lower slot edge at least
+   spacing/2 above f_min; upper slot edge at most spacing/2 above f_max; one more channel would not fit *)
+Lemma grid_chans_spec fmin fmax sp baud label tx c : 0 < sp ->
+  In c (grid_chans fmin sp baud label tx (Qfloor ((fmax - fmin) / sp))) ->
+  exists i, (1 <= i <= Qfloor ((fmax - fmin) / sp))%Z /\ c = grid_chan fmin sp baud label tx i /\
+            fmin < cf c /\ cf c <= fmax /\ fmin + half sp <= clo c /\ chi c <= fmax + half sp.
+Proof.
+  intros Hsp Hc. unfold grid_chans in Hc. apply grid_from_in in Hc. destruct Hc as (i & Hi & ->).
+  set (n := Qfloor ((fmax - fmin) / sp)) in *.
+  assert (Hin : (1 <= i <= n)%Z) by lia.
+  exists i. split; auto. split; auto.
+  assert (Hfl : inject_Z n <= (fmax - fmin) / sp) by apply Qfloor_le.
+  assert (Hn : sp * inject_Z n <= fmax - fmin).
+  { apply (Qmult_le_compat_r _ _ sp) in Hfl; [|apply Qlt_le_weak, Hsp].
+    unfold Qdiv in Hfl. rewrite <- Qmult_assoc, (Qmult_comm (/ sp)), Qmult_inv_r, Qmult_1_r in Hfl;
+      [|intros E; rewrite E in Hsp; apply (Qlt_irrefl 0 Hsp)].
+    rewrite Qmult_comm. exact Hfl. }
+  assert (H1 : sp * inject_Z 1 <= sp * inject_Z i) by (apply inject_Z_mult_le; auto; lia).
+  assert (H2 : sp * inject_Z i <= sp * inject_Z n) by (apply inject_Z_mult_le; auto; lia).
+  assert (E1 : sp * inject_Z 1 == sp) by (unfold inject_Z; ring).
+  destruct (grid_chan_edges fmin sp baud label tx i) as [-> ->].
+  unfold grid_chan. cbn [cf]. unfold half. repeat split; lra.
+Qed.
+
+Lemma grid_maximal fmin fmax sp : 0 < sp ->
+  fmax < fmin + sp * inject_Z (Qfloor ((fmax - fmin) / sp) + 1).
+Proof.
+  intros Hsp. pose proof (Qlt_floor ((fmax - fmin) / sp)) as H.
+  set (n := Qfloor ((fmax - fmin) / sp)) in *.
+  apply (Qmult_lt_r _ _ sp Hsp) in H.
+  unfold Qdiv in H. rewrite <- Qmult_assoc, (Qmult_comm (/ sp)), Qmult_inv_r, Qmult_1_r in H;
+    [|intros E; rewrite E in Hsp; apply (Qlt_irrefl 0 Hsp)].
+  rewrite (Qmult_comm sp). lra.
+Qed.
+
+Lemma grid_chans_increasing fmin sp baud label tx n : 0 < sp ->
+  pw (fun a b => cf a < cf b) (grid_chans fmin sp baud label tx n).
+Proof.
+  intros Hsp. pose proof (grid_from_sep fmin sp baud label tx (Z.to_nat n) Hsp 1%Z) as Hs.
+  unfold grid_chans.
+  assert (Hp : pos_slots (grid_from (grid_chan fmin sp baud label tx) 1 (Z.to_nat n))).
+  { intros c Hc. apply grid_from_in in Hc. destruct Hc as (j & _ & ->). exact Hsp. }
+  revert Hs Hp. generalize (grid_from (grid_chan fmin sp baud label tx) 1 (Z.to_nat n)).
+  induction l as [|a t IH]; cbn [pw]; auto. intros [Hf Hs] Hp. split.
+  - apply Forall_forall. intros b Hb. rewrite Forall_forall in Hf. specialize (Hf b Hb). unfold sep in Hf.
+    pose proof (lo_lt_f a (Hp a (or_introl eq_refl))). pose proof (lo_lt_f b (Hp b (or_intror Hb))). lra.
+  - apply IH; auto. intros c Hc. apply Hp. cbn. auto.
+Qed.
+
+(* a baud rate above the spacing is rejected as soon as there is a channel *)
+Lemma create_input_si_baud fmin fmax sp baud label tx : 0 < sp -> sp < baud ->
+  (1 <= Qfloor ((fmax - fmin) / sp))%Z ->
+  create_input_si fmin fmax sp baud label tx = Err E_baud.
+Proof.
+  intros Hsp Hb Hn. unfold create_input_si. rewrite (automatic_nch_ok _ _ _ Hsp). cbn [bind].
+  destruct (Qfloor ((fmax - fmin) / sp) <? 0)%Z eqn:En; [lia|].
+  set (l := grid_chans fmin sp baud label tx (Qfloor ((fmax - fmin) / sp))).
+  assert (Hpos : pos_slots l).
+  { intros c Hc. unfold l, grid_chans in Hc. apply grid_from_in in Hc. destruct Hc as (j & _ & ->). exact Hsp. }
+  apply mk_si_baud_iff; auto. split.
+  - rewrite overlapping_iff. intros Hn'. apply Hn'. apply sep_apart. unfold l, grid_chans. apply grid_from_sep, Hsp.
+  - exists (grid_chan fmin sp baud label tx 1). split; [|exact Hb].
+    unfold l, grid_chans. destruct (Z.to_nat (Qfloor ((fmax - fmin) / sp))) eqn:E; [lia|]. cbn. auto.
+Qed.
+
+(* ====================================================================================================
+   Idempotence of the filter; filtering commutes with the construction
+   ==================================================================================================== *)
+Lemma filter_idem {A} (p : A -> bool) l : filter p (filter p l) = filter p l.
+Proof. apply filter_all. intros x Hx. apply filter_In in Hx. tauto. Qed.
+
+Lemma filter_bands_idem bs s k : si_ok s -> bands_disjoint bs ->
+  filter_bands bs s = Ok k -> filter_bands bs k = Ok k.
+Proof.
+  intros Hok Hd E. rewrite (filter_bands_ok bs s Hok Hd) in E.
+  destruct (filter (in_some bs) s) as [|c0 t] eqn:Ef; [discriminate|]. inversion E; subst k. rewrite <- Ef.
+  rewrite filter_bands_ok; auto; [|apply si_ok_filter, Hok]. rewrite filter_idem, Ef. reflexivity.
+Qed.
+
+Lemma filter_si_idem path dmin dmax dsp s k : path_ok path -> si_ok s ->
+  filter_si path dmin dmax dsp s = Ok k -> filter_si path dmin dmax dsp k = Ok k.
+Proof.
+  intros Hp Hok E. unfold filter_si in *. apply (filter_bands_idem _ s); auto.
+  unfold path_common_range. apply common_range_disjoint. rewrite filter_valid_raw. apply path_bands_disjoint, Hp.
+Qed.
+
+Lemma Permutation_filter {A} (p : A -> bool) l l' : Permutation l l' -> Permutation (filter p l) (filter p l').
+Proof.
+  induction 1 as [|x l l' HP IH|x y l|l l' l'' HP1 IH1 HP2 IH2]; cbn [filter]; auto.
+  - destruct (p x); auto.
+  - destruct (p x), (p y); auto. apply perm_swap.
+  - eapply perm_trans; eauto.
+Qed.
+
+(* removing the out-of-band carriers from the launch list first and constructing then = constructing and filtering *)
+Lemma filter_before_or_after bs l s : pos_slots l -> bands_disjoint bs -> mk_si l = Ok s ->
+  filter_bands bs s = match filter (in_some bs) l with
+                      | [] => Err E_noband
+                      | l' => mk_si l'
+                      end.
+Proof.
+  intros Hpos Hd E. destruct (mk_si_sorted l s Hpos E) as (HP & Hok & _).
+  rewrite (filter_bands_ok bs s Hok Hd).
+  pose proof (Permutation_filter (in_some bs) l s HP) as HPf.
+  assert (Hk : mk_si (filter (in_some bs) l) = Ok (filter (in_some bs) s)).
+  { rewrite (mk_si_perm _ _ (fun c Hc => Hpos c (proj1 (proj1 (filter_In _ _ _) Hc))) HPf).
+    apply mk_si_ok_id, si_ok_filter, Hok. }
+  destruct (filter (in_some bs) l) as [|a t] eqn:El.
+  - apply Permutation_nil in HPf. rewrite HPf. reflexivity.
+  - rewrite Hk. destruct (filter (in_some bs) s) eqn:Es; auto.
+    apply Permutation_sym, Permutation_nil in HPf. discriminate.
+Qed.
+
+(* the filtered spectrum does not depend on the order of the carrier list *)
+Lemma filter_perm path dmin dmax dsp l l' : pos_slots l -> Permutation l l' ->
+  (let* s := mk_si l in filter_si path dmin dmax dsp s) = (let* s := mk_si l' in filter_si path dmin dmax dsp s).
+Proof. intros Hpos HP. rewrite (mk_si_perm l l' Hpos HP). reflexivity. Qed.
+
+(* ====================================================================================================
+   The `spacing` key of the common range (also with default_design_bands)
+   ==================================================================================================== *)
+(* r carries a spacing at least as large as the one b declares (if b declares one) *)
+Definition sp_ge (r b : band) : Prop := forall x, bsp b = Some x -> exists y, bsp r = Some y /\ x <= y.
+Definition refines (r b : band) : Prop := bsub r b /\ sp_ge r b.
+
+Lemma refines_trans r a b : refines r a -> refines a b -> refines r b.
+Proof.
+  intros [[H1 H2] Hs1] [[H3 H4] Hs2]. split; [split; lra|].
+  intros x Hx. destruct (Hs2 x Hx) as (y & Hy & Hxy). destruct (Hs1 y Hy) as (z & Hz & Hyz).
+  exists z. split; auto. lra.
+Qed.
+
+Lemma inter_refines d f s r : In r (inter d f s) -> refines r f /\ refines r s /\ exists y, bsp r = Some y.
+Proof.
+  intros Hr. pose proof (inter_sub d f s r Hr) as [Hf Hs]. unfold inter in Hr.
+  destruct (qlt _ _); [|destruct Hr]. destruct Hr as [<-|[]].
+  split; [split; [exact Hf|]|split; [split; [exact Hs|]|eexists; reflexivity]].
+  - intros x Hx. eexists. split; [reflexivity|]. unfold spacing_of. rewrite Hx.
+    destruct (bsp s) as [b|]; [destruct (qmax_cases x b) as [[-> ?]|[-> ?]]; lra|lra].
+  - intros x Hx. eexists. split; [reflexivity|]. unfold spacing_of. rewrite Hx.
+    destruct (bsp f) as [a|]; [destruct (qmax_cases a x) as [[-> ?]|[-> ?]]; lra|lra].
+Qed.
+
+Lemma cr_step_refines d cr bands r : In r (cr_step d cr bands) ->
+  exists f s, In f cr /\ In s bands /\ refines r f /\ refines r s /\ exists y, bsp r = Some y.
+Proof.
+  unfold cr_step. intros Hr. apply in_flat_map in Hr. destruct Hr as (f & Hf & Hr).
+  apply in_flat_map in Hr. destruct Hr as (s & Hs & Hr). exists f, s.
+  destruct (inter_refines d f s r Hr) as (H1 & H2 & H3). auto.
+Qed.
+
+Lemma fold_step_refines d u : forall acc r, In r (fold_left (cr_step d) u acc) ->
+  (exists a, In a acc /\ (a = r \/ refines r a)) /\ (forall amp, In amp u -> exists b, In b amp /\ refines r b).
+Proof.
+  induction u as [|a t IH]; intros acc r Hr; cbn [fold_left] in Hr.
+  - split; [exists r; split; auto|intros amp []].
+  - destruct (IH _ _ Hr) as [(x & Hx & Hrx) Ht].
+    destruct (cr_step_refines d acc a x Hx) as (f & s & Hf & Hs & Hxf & Hxs & _).
+    assert (Hrf : refines r f) by (destruct Hrx as [->|Hrx]; [exact Hxf|exact (refines_trans r x f Hrx Hxf)]).
+    assert (Hrs : refines r s) by (destruct Hrx as [->|Hrx]; [exact Hxs|exact (refines_trans r x s Hrx Hxs)]).
+    split; [exists f; split; auto|]. intros amp [<-|Hamp]; [exists s; split; auto|apply Ht; auto].
+Qed.
+
+Lemma fold_step_some d u : forall acc r, u <> [] -> In r (fold_left (cr_step d) u acc) -> exists y, bsp r = Some y.
+Proof.
+  induction u as [|a t IH]; intros acc r Hne Hr; [congruence|]. cbn [fold_left] in Hr.
+  destruct t as [|a' t'].
+  - cbn [fold_left] in Hr. destruct (cr_step_refines d acc a r Hr) as (_ & _ & _ & _ & _ & _ & H). exact H.
+  - apply (IH (cr_step d acc a) r); [congruence|exact Hr].
+Qed.
+
+Lemma band_eqb_refines r b b' : band_eqb b b' = true -> refines r b' -> refines r b.
+Proof.
+  unfold band_eqb. rewrite !andb_true_iff. intros [[E1 E2] E3] [[H1 H2] Hs]. unfold qeqb in *.
+  apply Qeq_bool_iff in E1, E2. split; [split; lra|].
+  intros x Hx. unfold oq_eqb in E3. rewrite Hx in E3. destruct (bsp b') as [x'|] eqn:Eb'; [|discriminate].
+  unfold qeqb in E3. apply Qeq_bool_iff in E3. destruct (Hs x' Eb') as (y & Hy & Hxy). exists y. split; auto. lra.
+Qed.
+
+Lemma list_eqb_in a1 : forall a2 b', list_eqb band_eqb a1 a2 = true -> In b' a2 ->
+  exists b, In b a1 /\ band_eqb b b' = true.
+Proof.
+  induction a1 as [|x t IH]; intros [|y t2] b' E Hb'; try discriminate; [destruct Hb'|].
+  cbn [list_eqb] in E. apply andb_true_iff in E. destruct E as [E1 E2]. destruct Hb' as [<-|Hb'].
+  - exists x. cbn. auto.
+  - destruct (IH t2 b' E2 Hb') as (b & Hb & Eb). exists b. cbn. auto.
+Qed.
+
+(* every returned band lies inside one band of every valid amplifier and carries a spacing that is at least the one
+   that band declares; and it always carries a spacing *)
+Lemma common_range_gen_refines amps dmin dmax dsp ddb r : filter_valid amps <> [] ->
+  In r (find_common_range_gen amps dmin dmax dsp ddb) ->
+  (exists y, bsp r = Some y) /\
+  (forall a, In a (filter_valid amps) -> exists b, In b a /\ bsub r b /\ sp_ge r b).
+Proof.
+  intros Hne Hr. unfold find_common_range_gen in Hr. rewrite remove_dups_unfold in Hr.
+  set (v := filter_valid amps) in *. set (w := map (sort_by bmin) v) in *.
+  assert (Hu : fold_left rd_step w [] <> []).
+  { destruct v as [|a0 v0]; [congruence|]. destruct (rd_repr w [] (sort_by bmin a0)) as (a' & Ha' & _).
+    - subst w. cbn. auto.
+    - intros E. rewrite E in Ha'. destruct Ha'. }
+  destruct (fold_left rd_step w []) as [|u0 ut] eqn:E; [congruence|]. cbv beta iota in Hr.
+  unfold common_of in Hr. apply (Permutation_in _ (sort_by_perm bmin _)) in Hr.
+  split; [apply (fold_step_some (dsp, ddb) (u0 :: ut) u0 r); [congruence|exact Hr]|].
+  destruct (fold_step_refines (dsp, ddb) _ _ _ Hr) as [_ Hall]. rewrite <- E in Hall.
+  intros a Ha. destruct (rd_repr w [] (sort_by bmin a)) as (a' & Ha' & Hrep).
+  { subst w. apply in_map. exact Ha. }
+  destruct (Hall a' Ha') as (b' & Hb' & Hrb').
+  assert (Hb : exists b, In b (sort_by bmin a) /\ refines r b).
+  { destruct Hrep as [->|Hrep]; [exists b'; auto|].
+    destruct (list_eqb_in _ _ b' Hrep Hb') as (b & Hb & Eb). exists b. split; auto.
+    apply (band_eqb_refines r b b'); auto. }
+  destruct Hb as (b & Hb & [Hsub Hsp]). exists b. split; [|auto].
+  apply (Permutation_in _ (sort_by_perm bmin a) Hb).
+Qed.
+
+Lemma common_range_gen_point amps dmin dmax dsp ddb x : filter_valid amps <> [] ->
+  ((exists b, In b (find_common_range_gen amps dmin dmax dsp ddb) /\ bmin b < x /\ x < bmax b) <->
+   (forall a, In a (filter_valid amps) -> exists b, In b a /\ bmin b < x /\ x < bmax b)).
+Proof. intros Hne. apply (common_range_gen_probe _ amps dmin dmax dsp ddb (probe_point x) Hne). Qed.
+
+Lemma common_range_gen_slot amps dmin dmax dsp ddb c : 0 < cslot c -> filter_valid amps <> [] ->
+  (in_some (find_common_range_gen amps dmin dmax dsp ddb) c = true <->
+   (forall a, In a (filter_valid amps) -> in_some a c = true)).
+Proof.
+  intros Hc Hne. rewrite in_some_probe, (common_range_gen_probe _ amps dmin dmax dsp ddb (probe_slot c Hc) Hne).
+  split; intros H a Ha; apply in_some_probe; auto.
 Qed.
